@@ -113,6 +113,26 @@ NEEDS.update({
  "w3_c09_m2": ("connection.py: _has_connected_to_proxy set after _tunnel() and no longer reset by close()", "successful tunnel, tunnel closed, same connection object re-tunnels and the proxy refuses: ProtocolError instead of ProxyError"),
  "w3_c10_m1": ("connection.py request(): header_keys built from stripped names", "caller header named like a special one plus trailing whitespace ('Content-Length ', 'Host\\t'): automatic header suppressed / framing lost"),
  "w3_c10_m2": ("connection.py request(): chunked=True + caller Content-Length drops Transfer-Encoding but still chunk-frames the body", "chunked=True together with a caller-supplied Content-Length and a non-empty body"),
+ "w3_c11_m1": ("util/request.py body_to_chunks: content_length from the caller's str, not the encoded bytes (same edit as c10_m1)", "str body with non-ASCII characters, no caller Content-Length, not chunked"),
+ "w3_c11_m2": ("connectionpool.py urlopen: body position recorded only `if body_pos is not None or retries._is_method_retryable(method)`", "method outside Retry.allowed_methods (POST/PATCH by default) + file/iterator body + body-preserving redirect followed by the pool"),
+ "w3_c12_m1": ("response.py read(): `_body` cached before the queued decoded bytes are merged in front", "decoded partial read that leaves bytes queued, then .data looked at twice"),
+ "w3_c12_m2": ("response.py BaseHTTPResponse.__init__: Transfer-Encoding value no longer lower-cased", "`Transfer-Encoding: Chunked` / `CHUNKED` + read_chunked()"),
+ "w3_c13_m1": ("response.py new HTTPResponse._flush_decoder: no flush when _fp_bytes_read == 0", "chunked framing intact + zstd stream cut short + consumed by stream()/read_chunked() only"),
+ "w3_c13_m2": ("response.py _update_chunk_length: unanchored regex accepts a hex prefix", "chunk-size line corrupted after its first hex digits, read through urllib3's own chunk parser"),
+ "w3_c14_m1": ("util/url.py _encode_invalid_chars: '%' added to the module-level allowed set in place", "two parses in one process: a component with only valid escapes, then one with a stray '%'"),
+ "w3_c14_m2": ("util/url.py parse_url: normalisation flag computed before the scheme is lower-cased", "http/https scheme with an upper-case letter + a component that normalisation would change"),
+ "w3_c15_m1": ("util/proxy.py connection_requires_http_tunnel: lost `proxy_url.scheme == 'https'` (same edit as w2_c15_m1)", "http proxy + use_forwarding_for_https=True + https target: sent in clear to the proxy"),
+ "w3_c15_m2": ("connectionpool.py urlopen: origin-form vs absolute-form decided from parse_url(url).host", "origin-form target starting with '//' (path //n.test/b): rewritten to /b"),
+ "w3_c16_m1": ("_collections.py HTTPHeaderDict.setdefault: truthiness test instead of presence", "name present with the single value '' then setdefault(name, non-empty)"),
+ "w3_c16_m2": ("_collections.py HTTPHeaderDict.__setitem__ = discard() + add()", "name present, another name added after it, then assignment to the first: order of names changes"),
+ "w3_c17_m1": ("poolmanager.py _merge_pool_kwargs returns the shared connection_pool_kw when there is no override", "manager with TLS keywords: https origin, then an http pool is created, then the https origin again: second pool, TLS settings lost"),
+ "w3_c17_m2": ("connectionpool.py _close_pool_connections stops at the first empty slot", "maxsize >= 2, a None placeholder above a live idle connection when the pool is closed/evicted: connection left open"),
+ "w3_c18_m1": ("poolmanager.py ProxyManager.connection_from_host: forwarded https shares the proxy's pool", "use_forwarding_for_https=True + https target (+ an http target through the same proxy)"),
+ "w3_c18_m2": ("poolmanager.py _default_key_normalizer: dict values frozen by tuple(dict) (names only)", "two contexts whose dict-valued keyword has the same names and different values"),
+ "w3_c19_m1": ("connectionpool.py _make_request: read-timeout switch guarded by conn.is_connected", "answer already readable when request() returns + connect budget looser than the read budget"),
+ "w3_c19_m2": ("connection.py request(): socket timeout no longer refreshed before writing on a reused connection", "second request on a pooled connection with another effective timeout and a send that has to wait"),
+ "w3_c20_m1": ("filepost.py iter_field_objects: Mapping entries in sorted-key order", "fields given as a dict whose insertion order is not the sorted order"),
+ "w3_c20_m2": ("_request_methods.py request_encode_body: `headers or self.headers`", "headers={} with the request on an object whose default headers are not empty"),
 })
 STRENGTHENED.update({
  "w3_c01_m1": "(C01 is single-threaded: the race is caught by C02, whose queue stand-in makes full()/put() separate scheduling points)",
@@ -127,6 +147,14 @@ STRENGTHENED.update({
  "w3_c08_m2": "C08 DNS hosts containing '%'",
  "w3_c09_m1": "(C09 unchanged: caught by C18's dotted-host location pairs)",
  "w3_c10_m2": "C10 family body-framing: caller framing header with and without chunked=True, judged as 'exactly one request under the announced framing'",
+ "w3_c11_m2": "C11 policy 'narrow': the method is outside Retry.allowed_methods; histories over failed dials and redirects",
+ "w3_c12_m1": "C12 single programs 'pdata': one partial call, then .data twice",
+ "w3_c12_m2": "C12 response specs with the transfer-coding name spelt Chunked / CHUNKED",
+ "w3_c15_m1": "(C15 unchanged: the change is caught by C09's closed-tunnel histories)",
+ "w3_c15_m2": "C15 path alphabet: an origin-form target that looks like a network-path reference (//n.test/b)",
+ "w3_c17_m2": "(C17 unchanged: caught by C02's connection-accounting oracle at pool close)",
+ "w3_c18_m1": "(C18 unchanged: caught by C09 - first message to an http proxy for an https target is not CONNECT)",
+ "w3_c20_m2": "C20 headers kind 'empty': headers={} with the request while the object's defaults carry a Content-Type",
 })
 # missed by the check as it stood when the change arrived -> what was added to the check (then re-run: detected)
 STRENGTHENED = {
@@ -169,7 +197,7 @@ STRENGTHENED.update({
  "w2_c15_m1": "(C15 unchanged: the change is caught by C09's closed-tunnel histories)",
 })
 CAUGHT_BY_OTHER = {"w2_c07_m2": ["C18"], "w2_c15_m1": ["C09"], "w3_c01_m1": ["C02"], "w3_c02_m2": ["C01"], "w3_c05_m2": ["C11"],
-                   "w3_c07_m1": ["C08"], "w3_c09_m1": ["C18"], "c09_m2": ["C07", "C09"], "c07_m2": ["C07", "C08"]}
+                   "w3_c07_m1": ["C08"], "w3_c09_m1": ["C18"], "w3_c15_m1": ["C09"], "w3_c17_m2": ["C02"], "w3_c18_m1": ["C09"], "c09_m2": ["C07", "C09"], "c07_m2": ["C07", "C08"]}
 
 def main():
     out_root = "/verif/seeded"
@@ -190,6 +218,12 @@ def main():
         b = [l.strip() for l in b if l.strip()]
         ok = a.get("apply") and a.get("demo_unchanged_rc") == 0 and a.get("demo_changed_rc") == 1 and a.get("baseline_broken") == 0
         caught = bool(b) and all("rc=1" in l and "viol=0" not in l for l in b)
+        other = {}
+        for o in CAUGHT_BY_OTHER.get(name, []):
+            f = "/verif/scratch/mut/%s_%s/b.txt" % (name, o.lower())
+            if os.path.exists(f):
+                other[o] = [l.strip() for l in open(f).read().split("\n") if l.strip()]
+        caught_other = any(ls and all("rc=1" in l and "viol=0" not in l for l in ls) for ls in other.values())
         d = os.path.join(out_root, name)
         os.makedirs(d, exist_ok=True)
         for f in ("patch.diff", "demo.py", "notes.md"):
@@ -208,10 +242,11 @@ def main():
             "kept": bool(ok),
             "strengthened": STRENGTHENED.get(name),
             "our_check": {"command": "VERIF_REPO=<changed tree> ./check %s --tier quick (VERIF_SEED=0 and 1)" % pid, "results": b, "detected": caught,
-                          "also_detected_by": CAUGHT_BY_OTHER.get(name, [])},
+                          "also_detected_by": CAUGHT_BY_OTHER.get(name, []), "other_check_results": other,
+                          "detected_by_any": caught or caught_other},
         }
         json.dump(meta, open(os.path.join(d, "meta.json"), "w"), indent=1)
-        rows.append((name, pid, ok, caught, b))
+        rows.append((name, pid, ok, caught or caught_other, b, other))
     for r in rows:
         print(r)
 
